@@ -356,6 +356,67 @@ enum Case {
     Sinks(TV),
     Ops(OpsCase),
     Blob(BlobSink),
+    Static(StaticCase),
+}
+
+/// a value at its REAL static type (the run-time bridge hands the library one harness type, which hides whatever an
+/// entry point does for particular types): text and bytes around the empty value, alone and inside other values
+#[derive(Debug, Clone, Serialize, Deserialize)]
+pub struct StaticCase {
+    pub kind: u8,
+    pub text: String,
+    pub bytes: Vec<u8>,
+    pub n: u32,
+}
+
+pub fn check_static_sinks(c: &StaticCase, acc: &mut Acc, record: bool) -> Verdict {
+    use std::sync::Arc;
+    use vmodel::{Ty, Val};
+    fn through<T: desert::BinarySerializer>(v: &T) -> Vec<(&'static str, Result<Vec<u8>, String>)> {
+        let e = |r: desert::Result<Vec<u8>>| r.map_err(|e| vcat::errinfo(&e).kind);
+        vec![
+            ("serialize(Vec<u8>)", e(desert::serialize(v, Vec::new()))),
+            ("serialize(BytesMut)", e(desert::serialize(v, bytes::BytesMut::new()).map(|b| b.to_vec()))),
+            ("serialize_to_bytes", e(desert::serialize_to_bytes(v).map(|b| b.to_vec()))),
+            ("serialize_to_byte_vec", e(desert::serialize_to_byte_vec(v))),
+            ("serialize(Recording)", e(desert::serialize(v, vcat::Recording { bytes: vec![], calls: 0, bytewise: false }).map(|r| r.bytes))),
+            ("SizeCalculator (that many zero bytes)", e(desert::serialize(v, desert::SizeCalculator::new()).map(|s| vec![0u8; s.size()]))),
+        ]
+    }
+    let a = |t: Ty| Arc::new(t);
+    let (t, b) = (c.text.clone(), c.bytes.clone());
+    let (name, ty, val, outs) = match c.kind % 12 {
+        0 => ("String", Ty::Str, Val::str(&t), through(&t)),
+        1 => ("Vec<u8>", Ty::Bytes, Val::Bytes(b.clone()), through(&b)),
+        2 => ("&str", Ty::Str, Val::str(&t), through(&t.as_str())),
+        3 => ("Bytes", Ty::Bytes, Val::Bytes(b.clone()), through(&bytes::Bytes::from(b.clone()))),
+        4 => ("Vec<String>", Ty::Vec(a(Ty::Str)), Val::Seq(vec![Val::str(&t), Val::str(&t)]), through(&vec![t.clone(), t.clone()])),
+        5 => ("Option<String>", Ty::Option(a(Ty::Str)), Val::some(Val::str(&t)), through(&Some(t.clone()))),
+        6 => ("(String, Vec<u8>)", Ty::Tuple(vec![Ty::Str, Ty::Bytes]), Val::Tuple(vec![Val::str(&t), Val::Bytes(b.clone())]), through(&(t.clone(), b.clone()))),
+        7 => ("u32", Ty::U32, Val::Int(c.n as i128), through(&c.n)),
+        8 => ("&[u8]", Ty::Bytes, Val::Bytes(b.clone()), through(&b.as_slice())),
+        9 => ("Vec<u32>", Ty::Vec(a(Ty::U32)), Val::Seq(b.iter().map(|x| Val::Int(*x as i128 * 65_537)).collect()), through(&b.iter().map(|x| *x as u32 * 65_537).collect::<Vec<u32>>())),
+        10 => ("Box<String>", Ty::Str, Val::str(&t), through(&Box::new(t.clone()))),
+        _ => ("Option<Vec<u8>>", Ty::Option(a(Ty::Bytes)), if b.is_empty() && c.n % 2 == 0 { Val::None } else { Val::some(Val::Bytes(b.clone())) }, through(&if b.is_empty() && c.n % 2 == 0 { None } else { Some(b.clone()) })),
+    };
+    if record {
+        acc.case(&format!("sinks: {name} at its static type"), hash_json(c), true);
+    }
+    let want = match vmodel::refcodec::ref_encode(&ty, &val) {
+        Ok(f) => f.bytes,
+        Err(e) => return Verdict::Fail(format!("HARNESS: the model cannot encode {val:?} as {name}: {e:?}")),
+    };
+    for (sink, out) in &outs {
+        let ok = match out {
+            Ok(bytes) if sink.starts_with("SizeCalculator") => bytes.len() == want.len(),
+            Ok(bytes) => *bytes == want,
+            Err(_) => false,
+        };
+        if !ok {
+            return Verdict::Fail(format!("{name} {val:?} through {sink} gives {:?}; the format says {}", out.as_ref().map(|b| hex(b)), hex(&want)));
+        }
+    }
+    Verdict::Pass
 }
 
 /// a value of a user codec that writes a compressed block through the context, to every sink
@@ -431,6 +492,11 @@ pub fn run(cx: &Cx) -> PropResult {
         if drive(crate::run::tag_seed(derive_seed(cx.seed, cx.prop, shard as u64, 4), 4), &strat, cx.n(60, 3_000), acc, &|c: &BlobSink| to_json(&Case::Blob(c.clone())), &mut |c, a, r| check_blob_sinks(c, a, r)) {
             return;
         }
+        let strat = (any::<u8>(), prop::sample::select(vec!["", "", "a", "\u{e9}", "two words", "\u{1f600}"]), prop_oneof![3 => Just(vec![]), 2 => proptest::collection::vec(any::<u8>(), 0..4), 1 => proptest::collection::vec(any::<u8>(), 120..140)], prop_oneof![Just(0u32), Just(127), Just(128), any::<u32>()])
+            .prop_map(|(kind, text, bytes, n)| StaticCase { kind, text: text.to_string(), bytes, n });
+        if drive(crate::run::tag_seed(derive_seed(cx.seed, cx.prop, shard as u64, 5), 5), &strat, cx.n(4_000, 100_000), acc, &|c: &StaticCase| to_json(&Case::Static(c.clone())), &mut |c, a, r| check_static_sinks(c, a, r)) {
+            return;
+        }
         let strat = ops_strategy();
         drive(crate::run::tag_seed(derive_seed(cx.seed, cx.prop, shard as u64, 1), 1), &strat, n_ops, acc, &|c: &OpsCase| to_json(&Case::Ops(c.clone())), &mut |c, a, r| check_ops(c, a, r));
     });
@@ -447,5 +513,6 @@ pub fn replay(case: &Value) -> Verdict {
         Case::Sinks(tv) => check_sinks(&tv, &mut Acc::new(), false),
         Case::Ops(o) => check_ops(&o, &mut Acc::new(), false),
         Case::Blob(b) => check_blob_sinks(&b, &mut Acc::new(), false),
+        Case::Static(c) => check_static_sinks(&c, &mut Acc::new(), false),
     }
 }
